@@ -22,3 +22,23 @@ def resPressure (L n : Nat) (p0 pct rate : Rat) : List Rat :=
     | m+1 => P0 :: pressLoop p0 P0 dlt m 1 false
 
 end GeoVerif
+
+namespace GeoVerif
+
+/-- `InjectionReservoirPressurePredictor`: initial pressure + (rate / n) · t; constant when the rate is 0 -/
+def injPressure (L n : Nat) (p0 rate : Rat) : List Rat :=
+  if rate = 0 then List.replicate (L * n) p0
+  else (List.range (L * n)).map (fun (t : Nat) => if t = 0 then p0 else p0 + rate / (n : Rat) * (t : Rat))
+
+/-- negative pumping power becomes zero -/
+def clamp0 (x : Rat) : Rat := if x < 0 then 0 else x
+
+/-- pumping power of one well side from its pressure drop: clamp (ΔP · coefficient) -/
+def pumpSide (dp : List Rat) (coef : Rat) : List Rat := dp.map (fun d => clamp0 (d * coef))
+
+/-- total pumping power under the productivity/injectivity-index model -/
+def pumpTotal (productionPumped : Bool) (inj prod : List Rat) : List Rat :=
+  (List.range inj.length).map (fun t =>
+    clamp0 (if productionPumped then inj.getD t 0 + prod.getD t 0 else inj.getD t 0))
+
+end GeoVerif
